@@ -75,6 +75,12 @@ def run(ctx):
                 root["required"] = list(keys)
             sysm.append(root)
             sysm.append({"type": "object", "properties": {"inner": root, "list": {"type": "array", "items": root}}})
+    # types named like the identifiers of the method templates next to a type with typed additionalProperties (the block refers to `Plain` literally)
+    for dn in ("plain", "Plain", "raw"):
+        sysm.append({"type": "object", "$defs": {dn: {"type": "object", "properties": {"text": {"type": "string", "minLength": 1}}, "required": ["text"]}},
+                     "properties": {"name": {"type": "string"}, "note": {"$ref": "#/$defs/" + dn}}, "additionalProperties": {"type": "integer"}, "required": ["name"]})
+        sysm.append({"type": "object", "$defs": {dn: {"type": "object", "properties": {"text": {"type": "string"}, "n": {"type": "integer"}}, "additionalProperties": {"type": "string"}}},
+                     "properties": {"inner": {"$ref": "#/$defs/" + dn}, "list": {"type": "array", "items": {"$ref": "#/$defs/" + dn}}}})
     for s in sysm:
         strip_numeric_enums(s)
     base = build_cases(ctx, len(sysm) + n, None, CLASSES, "c17x", extra_schemas=sysm, docs_per=2,
